@@ -309,6 +309,28 @@ def tarNames (f : TileFormat) (c : TComp) (tiles : List Tile) : List (List Char)
 def dirNames (f : TileFormat) (c : TComp) (tiles : List Tile) : List (List Char) :=
   tiles.map fun t => formatName t.1.2.2 t.1.1 t.1.2.1 f c
 
+/-- what the tar / directory writers take from the source -/
+structure WSource where
+  fmt : TileFormat
+  comp : TComp
+  /-- `compress(tilejson, tile_compression)`: the stored metadata bytes -/
+  metaB : Bytes
+  /-- `bbox_pyramid.iter_levels()` -/
+  levels : List BBox
+  /-- `get_bbox_tile_stream(level box)` -/
+  stream : BBox → List Tile
+
+/-- name of the metadata member / file: `tiles.json` + compression extension -/
+def metaName (c : TComp) : List Char := "tiles.json".toList ++ compExt c
+
+/-- `TarTilesWriter::write_to_path` (tar/writer.rs:26-73) and `DirectoryTilesWriter::write_to_path`
+    (directory/writer.rs:93-132): the metadata file first, then one file per streamed tile, level by
+    level.  For tar the list is the archive's regular members in order (names as stored: without
+    `./`, see `tarNames`); for a directory it is the set of files created. -/
+def writeFiles (s : WSource) : List File :=
+  (some (metaName s.comp), s.metaB) ::
+    (s.levels.flatMap s.stream).map fun t => (some (formatName t.1.2.2 t.1.1 t.1.2.1 s.fmt s.comp), t.2)
+
 /-! ## line protocol -/
 
 def bytesToChars (b : Bytes) : Option (List Char) := (String.fromUTF8? ⟨b.toArray⟩).map String.toList
@@ -372,9 +394,10 @@ def handleNames (tar : Bool) (args : List String) : Option String := do
     let c ← TComp.ofName c
     let (levels, rest) ← parseLevels rest
     let (tiles, _) ← parseTiles rest
-    let streamed := levels.flatMap (memStream tiles)
-    let names := if tar then tarNames f c streamed else
-      ((dirNames f c streamed).map String.ofList).mergeSort (fun a b => a ≤ b) |>.map String.toList
+    -- all files the writers create: the metadata file and one file per tile (`writeFiles`)
+    let all := (writeFiles ⟨f, c, [], levels, memStream tiles⟩).filterMap (·.1)
+    let names := if tar then all else
+      (all.map String.ofList).mergeSort (fun a b => a ≤ b) |>.map String.toList
     pure (" ".intercalate (s!"ok {names.length}" :: names.map charsToHex))
   | _ => none
 
